@@ -2,12 +2,14 @@ package rules
 
 import (
 	"fmt"
+	"go/token"
 	"go/types"
 	"strings"
 
 	"golang.org/x/tools/go/ssa"
 
 	"verif/internal/core"
+	"verif/internal/tmpl"
 )
 
 // checkPtrFresh (PTR-FRESH): every function of package ptr returns the address
@@ -455,4 +457,81 @@ func checkZapCast(c *core.Ctx, l *core.Ledger) {
 		}
 	})
 	l.Check(len(why) == 0, "ZAP-CAST", "zapMarshaler", c.Rel(f.Pos()), fmt.Sprintf("the %d cast(s) of typedef'd fields are to the typedef's root type", n), strings.Join(why, "; "))
+}
+
+// checkLabelVerbatim: the key a field is logged under is its label: the
+// go.label annotation when present, the Thrift name otherwise — as written
+// in the source. The function bound as the template function that prints
+// the key (fieldLabel) must return, on every path, a value that is one of
+// those two unchanged: a lookup in the entity's annotations, the entity's
+// ThriftName(), or a phi of them. A call that rewrites the string (case
+// folding, character replacement, trimming) makes the logged key differ
+// from the label the user chose.
+func checkLabelVerbatim(c *core.Ctx, l *core.Ledger, mod *tmpl.Model, rule string) {
+	seen := map[*types.Func]bool{}
+	for _, t := range mod.Templates {
+		b := t.Funcs["fieldLabel"]
+		if b == nil || b.Obj == nil || seen[b.Obj] {
+			continue
+		}
+		seen[b.Obj] = true
+		f := c.SSAFunc(b.Obj)
+		if f == nil {
+			l.Unk(rule, "fieldLabel", c.Rel(t.Pos), "label function has no body")
+			continue
+		}
+		var bad []string
+		var verbatim func(v ssa.Value, d int) bool
+		verbatim = func(v ssa.Value, d int) bool {
+			if d > 6 {
+				return false
+			}
+			switch x := v.(type) {
+			case *ssa.Phi:
+				for _, e := range x.Edges {
+					if !verbatim(e, d+1) {
+						return false
+					}
+				}
+				return true
+			case *ssa.Lookup:
+				_, isMap := x.X.Type().Underlying().(*types.Map)
+				return isMap
+			case *ssa.Extract:
+				if lk, ok := x.Tuple.(*ssa.Lookup); ok && x.Index == 0 {
+					return verbatim(lk, d+1)
+				}
+			case *ssa.Call:
+				if x.Call.IsInvoke() && x.Call.Method.Name() == "ThriftName" {
+					return true
+				}
+				if cal := x.Call.StaticCallee(); cal != nil && core.InRepo(cal) && len(cal.Blocks) > 0 && cal.Signature.Results().Len() == 1 {
+					// a repository helper is looked into: it must itself return one of its sources unchanged
+					ok := true
+					core.Instrs(cal, func(in ssa.Instruction) {
+						if r, isR := in.(*ssa.Return); isR && !verbatim(r.Results[0], d+2) {
+							ok = false
+						}
+					})
+					return ok
+				}
+			case *ssa.UnOp:
+				if x.Op == token.MUL {
+					if fld, _ := core.LoadedField(x); fld != nil {
+						return true // a stored name
+					}
+				}
+			case *ssa.Field:
+				return true
+			}
+			return false
+		}
+		core.Instrs(f, func(in ssa.Instruction) {
+			if r, ok := in.(*ssa.Return); ok && len(r.Results) == 1 && !verbatim(r.Results[0], 0) {
+				bad = append(bad, c.Rel(r.Pos())+": returns "+core.Sym(r.Results[0]))
+			}
+		})
+		l.Check(len(bad) == 0, rule, "fieldLabel="+core.SSAName(f), c.Rel(f.Pos()), "every path returns the annotation value or the Thrift name unchanged", "the log key is not the label as written: "+strings.Join(bad, "; "))
+	}
+	l.Floor(rule, 1)
 }
